@@ -102,6 +102,19 @@ theorem c12_caveat_needed (cfg : Config) (t : RelTuple) (c : String) (hc : t.cav
   · rw [hc] at h; cases h
   · rw [hc] at h1; cases h1; exact hbad h2
 
+/-- "on the supplied context": with a registry of predicates applied to the call's context, a caveated
+    tuple counts iff its caveat is registered and that predicate returns true on this context
+    (`none` = the predicate raised) -/
+theorem c12_caveat_on_context {Ctx : Type} (preds : String → Option (Ctx → Option Bool)) (ctx : Ctx) (t : RelTuple) :
+    CaveatSat (Registry.ofPreds preds ctx) t ↔
+      t.caveat = none ∨ ∃ c p, t.caveat = some c ∧ preds c = some p ∧ p ctx = some true :=
+  caveatSat_ofPreds preds ctx t
+
+/-- the object type used to select the rewrite: the text before the first colon, `user` without one -/
+theorem c12_split_ref (ty i s : String) (hty : ':' ∉ ty.toList) (hs : ':' ∉ s.toList) :
+    splitRef (ty ++ ":" ++ i) = (ty, i) ∧ splitRef s = ("user", s) :=
+  ⟨splitRef_typed ty i hty, splitRef_bare s hs⟩
+
 /-- TERMINATION is by construction (well-founded recursion, see the header); totality for the record -/
 theorem c12_terminates (cfg : Config) (dl : Nat → Bool) (q : Triple) :
     ∃ o : Outcome, checkOutcome cfg dl q = o ∧ check cfg dl q = o.toBool :=
